@@ -263,6 +263,9 @@ def compiled_cmodule(scratch: Path) -> Optional[Path]:
 def add_cmodule(p: Dict[str, Any]) -> Dict[str, Any]:
     """one more root: package cpkg with the compiled module, documented with --introspect-c-modules"""
     p["files"]["cpkg/__init__.py"] = "x = 1\n"
+    # an empty `native.so` stray would be imported by --introspect-c-modules and abort the run (ImportError: file too short:
+    # C01's subject, not C18's)
+    p["files"] = {k: v for k, v in p["files"].items() if not k.endswith(".so")}
     p["roots"] = p["roots"] + ["cpkg"]
     p["args"] = p["args"] + ["--introspect-c-modules"]
     p["cmodule"] = "cpkg"
@@ -656,12 +659,16 @@ def oracle(ctx: Ctx, p: Dict[str, Any], results: Dict[Tuple[int, str, str], List
         base_same_seed = results[(hs, modes[0], "")][0]
         if mode != modes[0]:
             k = diff_kind(base_same_seed["post"], first["post"])
-            if k and not template_collision and p.get("_base") is not None:
-                # attribution experiment: the same build with ONLY pydoctor/extensions listed in name order
+            if k and not template_collision and p.get("_base") is not None and p.get("_ext_order_cause"):
+                ctx.fail("listing-order:extension-load-order", inp, "hash seed %d: listing order %s vs %s (cause established for this project above)" % (hs, modes[0], mode))
+                k = ""
+            elif k and not template_collision and p.get("_base") is not None:
+                # attribution experiment (once per project): the same build with ONLY pydoctor/extensions listed in name order
                 pinned = run_build(p, p["_src"], p["_base"] / ("out_pin_%d" % hs), hs, mode, p["_base"] / ("side_pin_%d.json" % hs),
                                    "", first["clock"], pin="pydoctor/extensions")
                 shutil.rmtree(p["_base"] / ("out_pin_%d" % hs), ignore_errors=True)
                 if not diff_kind(base_same_seed["post"], pinned["post"]):
+                    p["_ext_order_cause"] = True
                     ctx.fail("listing-order:extension-load-order", inp,
                              "hash seed %d: listing order %s vs %s changes %s; with only pydoctor/extensions/ listed in name order the "
                              "trees are equal; extensions loaded as %s vs %s" % (
@@ -694,7 +701,9 @@ def oracle(ctx: Ctx, p: Dict[str, Any], results: Dict[Tuple[int, str, str], List
             nm = first["side"].get("projectname")
             if nm in byname:
                 k = diff_kind(byname[nm], first["post"])
-                if k and mode == modes[0]:
+                if k and mode == modes[0] and p.get("cmodule") and set(diff_snap(byname[nm], first["post"])) <= {p["cmodule"] + ".cmod.html"}:
+                    ctx.fail("hashseed:introspected-set-default", inp, "two builds that guessed the same project name differ in %s.cmod.html only" % p["cmodule"])
+                elif k and mode == modes[0]:
                     ctx.fail("hashseed:" + k, inp, "two builds that guessed the same project name %r differ in %s" % (
                         nm, diff_snap(byname[nm], first["post"])[:4]))
             elif mode == modes[0]:
@@ -1423,7 +1432,7 @@ def run(ctx: Ctx) -> None:
         presentation_stream(ctx, st, scratch)
         template_lookup_stream(ctx, st, scratch)
         hunter_streams(ctx, st)
-        nproj = 8 if ctx.quick else 200
+        nproj = 5 if ctx.quick else 200
         # the corpus first, on every run: detection of the known shapes never depends on the seed
         run_projects(ctx, st, corpus_projects(), scratch, jobs=16)
         projects: List[Dict[str, Any]] = []
@@ -1487,6 +1496,7 @@ def run_projects(ctx: Ctx, st: Streams, projects: List[Dict[str, Any]], scratch:
         finally:
             p.pop("_src", None)
             p.pop("_base", None)
+            p.pop("_ext_order_cause", None)
         if p.get("cmodule"):
             ctx.count("c-module:" + ("built" if compiled_cmodule(scratch) is not None else "no-compiler"))
         for rs in results[n].values():
